@@ -53,6 +53,34 @@ class BM(Model):
         self.systems.add_system(Stop("s", self, priority=5))
 
 
+class BMOwnExecute(BM):
+    """a model that drives its own termination from an override of the public execute(): it completes once its fuel
+    (one step) is used up"""
+    __slots__ = []
+
+    def execute(self, n=1):
+        super().execute(n)
+        if self.systems.timestep >= 1:
+            self.complete()
+
+
+class Swap(System):
+    """after burn-in (timestep 0) replaces collector "c" by a fresh collector registered under the same id"""
+
+    def execute(self):
+        if self.model.systems.timestep == 0:
+            self.model.systems.remove_system("c")
+            self.model.systems.add_system(RecC("c", self.model))
+
+
+class BMSwap(BM):
+    __slots__ = []
+
+    def __init__(self, a, b, stop):
+        super().__init__(a, b, stop)
+        self.systems.add_system(Swap("swap", self, priority=-5))      # runs after the collectors
+
+
 def _expected_runs(na, nb, reps):
     return [(a, b) for _ in range(reps) for a in range(na) for b in range(nb)]
 
@@ -94,9 +122,13 @@ def serial(na: int, nb: int, reps: int, mx: int, stop: int) -> bool:
         pl.build()
         pl.remove_parameter("junk")
         params = pl
-    res = B.batch_run(BM, params, collectors=sel, processes=1, max_timesteps=mx, repetitions=reps)
+    variant = hx.P.get('model', 'plain')
+    cls = BMOwnExecute if variant == 'own_execute' else BMSwap if variant == 'swap_collector' else BM
+    res = B.batch_run(cls, params, collectors=sel, processes=1, max_timesteps=mx, repetitions=reps)
     runs = [(a, b) for _ in range(reps) for a in avals for b in range(nb)]
     steps = stop if stop < mx else mx        # at timestep `stop` the stopper (priority 5) completes before collectors run
+    if variant == 'own_execute' and steps > 1:
+        steps = 1                            # the model's own execute() completes it after its first step
     if len(runs) >= 3:
         hx.reach('three_runs')
     if stop < mx:
@@ -115,7 +147,10 @@ def serial(na: int, nb: int, reps: int, mx: int, stop: int) -> bool:
                 return hx.end(hx.fail("model reused"))
     if sel is None:
         return hx.end(res == [])
-    if sel == "c":
+    if sel == "c" and variant == 'swap_collector':
+        # the result is what the collector registered as "c" AT THE END of the run holds: the steps after burn-in
+        exp = [[(a, b, t) for t in range(1, steps)] if steps >= 1 else [] for a, b in runs]
+    elif sel == "c":
         exp = [_records(a, b, steps, "c") for a, b in runs]
     else:
         exp = [{"c": _records(a, b, steps, "c"), "d": _records(a, b, steps, "d")} for a, b in runs]
@@ -247,7 +282,8 @@ def obligations(tier):
           [{"collectors": "c", "R": 1, "T": 2, "repeated": True}, {"collectors": "c", "R": 2, "T": 1, "oneshot": True},
            {"collectors": "c", "R": 1, "T": 2, "own_timestep": True},
            {"collectors": "c", "R": 1, "T": 1, "sibling": "dict"}, {"collectors": "c", "R": 1, "T": 1, "sibling": "plist"},
-           {"collectors": "c", "R": 1, "T": 1, "edited_list": True}],
+           {"collectors": "c", "R": 1, "T": 1, "edited_list": True},
+           {"collectors": "c", "R": 1, "T": 3, "model": "own_execute"}, {"collectors": "c", "R": 1, "T": 3, "model": "swap_collector"}],
           labels=("three_runs", "completes_before_limit", "limit_before_completion"), timeout=1200, encoded=enc),
         X("parallel_any_order", parallel_any_order,
           parts=[{"na": a, "nb": b, "reps": r, "procs": p} for (a, b, r) in shapes for p in (2,)] + [{"na": 2, "nb": 1, "reps": 1, "procs": 16}],
